@@ -100,6 +100,36 @@ func (n *c18Node) path(root string) string {
 	return s
 }
 
+// c18Flattened: the un-indexed path of n (element names only), the rank of n among the nodes that path selects
+// (document order) and their number
+func c18Flattened(tree, n *c18Node, root string) (string, int, int) {
+	var names []string
+	for x := n; x.parent != nil; x = x.parent {
+		names = append([]string{x.name}, names...)
+	}
+	cur := []*c18Node{tree}
+	path := root
+	for _, nm := range names {
+		var next []*c18Node
+		for _, c := range cur {
+			for _, k := range c.kids {
+				if k.name == nm {
+					next = append(next, k)
+				}
+			}
+		}
+		cur = next
+		path += "." + c02Ident(nm)
+	}
+	rank := -1
+	for i, c := range cur {
+		if c == n {
+			rank = i
+		}
+	}
+	return path, rank, len(cur)
+}
+
 // resolve a locator in another copy of the resource: returns the message that owns the last field
 func c18Owner(root protoreflect.Message, loc []c18Step) (owner protoreflect.Message, fd protoreflect.FieldDescriptor, idx int) {
 	cur := root
@@ -403,8 +433,8 @@ func init() {
 		mk   func() fhir.Resource
 	}
 	core.Register(&core.Check{
-		ID: "C18",
-		Rule: "single-operation sweep: every element of the hand-sized Patient, Observation, Questionnaire and of a slice of the schema-covering resource family (quick: 24 types x 1 instance at depth 2; thorough: all 146 types x 2 instances) is the target of Delete and Replace in every spelling {indexed path, first(), last(), where(true), take/skip, extension(url)}, every repeated element the target of Insert at every index in [-1, len+1], every element name of every visited message the target of Add; values: same type (different content), sibling types (string/code for a bound code incl. invalid codes, integer for positiveInt/unsignedInt incl. negative, code/markdown for string), wrong types (primitive/complex/boolean) and nil; nil resource; both the package-level and the compiled entry points; Move. Oracle: on success the resource equals the structural reference model of the operation applied to a copy (compared as protos, else as jsonformat JSON); on error the resource and the value are unchanged (proto equality, deterministic bytes and presence fingerprint); deleting an absent element returns nil without change; Move returns ErrNotImplemented. Operation histories: explicit-state BFS from the hand-sized Patient over an alphabet of 18 operations (with inverses) to depth 3 (quick) / 4 (thorough): every transition is compared with the model's transition, states are de-duplicated by canonical bytes, successors are built by replaying the shortest path on a fresh copy; non-trivial = distinct (resource, operation, target, value class, outcome)",
+		ID:          "C18",
+		Rule:        "single-operation sweep: every element of the hand-sized Patient, Observation, Questionnaire and of a slice of the schema-covering resource family (quick: 24 types x 1 instance at depth 2; thorough: all 146 types x 2 instances) is the target of Delete and Replace in every spelling {indexed path, first(), last(), where(true), take/skip, extension(url)}, every repeated element the target of Insert at every index in [-1, len+1], every element name of every visited message the target of Add; values: same type (different content), sibling types (string/code for a bound code incl. invalid codes, integer for positiveInt/unsignedInt incl. negative, code/markdown for string), wrong types (primitive/complex/boolean) and nil; nil resource; both the package-level and the compiled entry points; Move. Oracle: on success the resource equals the structural reference model of the operation applied to a copy (compared as protos, else as jsonformat JSON); on error the resource and the value are unchanged (proto equality, deterministic bytes and presence fingerprint); deleting an absent element returns nil without change; Move returns ErrNotImplemented. Operation histories: explicit-state BFS from the hand-sized Patient over an alphabet of 18 operations (with inverses) to depth 3 (quick) / 4 (thorough): every transition is compared with the model's transition, states are de-duplicated by canonical bytes, successors are built by replaying the shortest path on a fresh copy; non-trivial = distinct (resource, operation, target, value class, outcome)",
 		Assumptions: []string{"the reference model applies the operation by schema position on a protobuf copy; C02 establishes that schema positions and the jsonformat tree are aligned", "elements inside contained / bundled resources are targeted by the contained-targets sub-space only (success must show in the JSON, an error must change nothing)"},
 		Subs: func(tier string) []core.Sub {
 			cases := []resCase{
@@ -449,8 +479,12 @@ func init() {
 					}{
 						{"Delete id", func(res fhir.Resource) error { return patch.Delete(res, tc.root+".id") }},
 						{"Replace id", func(res fhir.Resource) error { return patch.Replace(res, tc.root+".id", fhir.ID("zz9")) }},
-						{"Add language", func(res fhir.Resource) error { return patch.Add(res, tc.root, "language", fhir.Code("en-AU"), &patch.Options{}) }},
-						{"Add id to meta", func(res fhir.Resource) error { return patch.Add(res, tc.root+".meta", "id", fhir.String("m1"), &patch.Options{}) }},
+						{"Add language", func(res fhir.Resource) error {
+							return patch.Add(res, tc.root, "language", fhir.Code("en-AU"), &patch.Options{})
+						}},
+						{"Add id to meta", func(res fhir.Resource) error {
+							return patch.Add(res, tc.root+".meta", "id", fhir.String("m1"), &patch.Options{})
+						}},
 						{"Delete the inner resource's first extension", func(res fhir.Resource) error { return patch.Delete(res, tc.root+".extension[0]") }},
 						{"Insert an extension at 0", func(res fhir.Resource) error {
 							return patch.Insert(res, tc.root+".extension", &dtpb.Extension{Url: fhir.URI("http://new")}, 0)
@@ -615,6 +649,17 @@ func c18Sweep(r *core.Rec, rname string, mk func() fhir.Resource) {
 				if len(sibs) == 1 {
 					spellings["where(true)"] = listPath + ".where(true)"
 					spellings["unindexed"] = listPath
+				}
+			}
+			// the element selected by position in the flattened collection of a path whose earlier steps are not indexed
+			// (Patient.name.given[2]): the parent that holds it is not the only one, nor necessarily the last one
+			if flat, rank, total := c18Flattened(tree, n, rootName); total > 1 && flat != listPath {
+				spellings["flattened[k]"] = fmt.Sprintf("%s[%d]", flat, rank)
+				if rank == 0 {
+					spellings["flattened.first()"] = flat + ".first()"
+				}
+				if rank == total-1 {
+					spellings["flattened.last()"] = flat + ".last()"
 				}
 			}
 			if string(n.msg.Descriptor().FullName()) == "google.fhir.r4.core.Extension" && n.name == "extension" { // not modifierExtension
@@ -884,7 +929,9 @@ type c18Op struct {
 }
 
 func c18Ops() []c18Op {
-	find := func(m protoreflect.Message, json string) protoreflect.FieldDescriptor { return m.Descriptor().Fields().ByJSONName(json) }
+	find := func(m protoreflect.Message, json string) protoreflect.FieldDescriptor {
+		return m.Descriptor().Fields().ByJSONName(json)
+	}
 	nameAt := func(m protoreflect.Message, i int) protoreflect.Message {
 		l := m.Get(find(m, "name")).List()
 		if i >= l.Len() {
@@ -931,7 +978,9 @@ func c18Ops() []c18Op {
 	}
 	return []c18Op{
 		{"add name X", func(r fhir.Resource) error { return patch.Add(r, "Patient", "name", newName("X"), &patch.Options{}) },
-			func(m protoreflect.Message) bool { return listInsert(m, find(m, "name"), newName("X"), m.Get(find(m, "name")).List().Len()) }},
+			func(m protoreflect.Message) bool {
+				return listInsert(m, find(m, "name"), newName("X"), m.Get(find(m, "name")).List().Len())
+			}},
 		{"insert name Y at 0", func(r fhir.Resource) error { return patch.Insert(r, "Patient.name", newName("Y"), 0) },
 			func(m protoreflect.Message) bool {
 				if m.Get(find(m, "name")).List().Len() == 0 {
@@ -963,7 +1012,9 @@ func c18Ops() []c18Op {
 				m.Mutable(find(m, "name")).List().Set(0, protoreflect.ValueOfMessage(newName("W").ProtoReflect()))
 				return true
 			}},
-		{"add given G to name[0]", func(r fhir.Resource) error { return patch.Add(r, "Patient.name[0]", "given", fhir.String("G"), &patch.Options{}) },
+		{"add given G to name[0]", func(r fhir.Resource) error {
+			return patch.Add(r, "Patient.name[0]", "given", fhir.String("G"), &patch.Options{})
+		},
 			func(m protoreflect.Message) bool {
 				n := nameAt(m, 0)
 				if n == nil {
@@ -997,7 +1048,9 @@ func c18Ops() []c18Op {
 				return true
 			}},
 		{"delete active", func(r fhir.Resource) error { return patch.Delete(r, "Patient.active") }, func(m protoreflect.Message) bool { m.Clear(find(m, "active")); return true }},
-		{"add active true", func(r fhir.Resource) error { return patch.Add(r, "Patient", "active", fhir.Boolean(true), &patch.Options{}) },
+		{"add active true", func(r fhir.Resource) error {
+			return patch.Add(r, "Patient", "active", fhir.Boolean(true), &patch.Options{})
+		},
 			func(m protoreflect.Message) bool {
 				if m.Has(find(m, "active")) {
 					return false
@@ -1023,7 +1076,9 @@ func c18Ops() []c18Op {
 				}
 				return listDelete(m, find(m, "telecom"), hit)
 			}},
-		{"add gender male", func(r fhir.Resource) error { return patch.Add(r, "Patient", "gender", fhir.String("male"), &patch.Options{}) },
+		{"add gender male", func(r fhir.Resource) error {
+			return patch.Add(r, "Patient", "gender", fhir.String("male"), &patch.Options{})
+		},
 			func(m protoreflect.Message) bool {
 				f := find(m, "gender")
 				if m.Has(f) {
@@ -1049,7 +1104,9 @@ func c18Ops() []c18Op {
 				m.Set(f, protoreflect.ValueOfMessage(g))
 				return true
 			}},
-		{"add id g1 to gender", func(r fhir.Resource) error { return patch.Add(r, "Patient.gender", "id", fhir.String("g1"), &patch.Options{}) },
+		{"add id g1 to gender", func(r fhir.Resource) error {
+			return patch.Add(r, "Patient.gender", "id", fhir.String("g1"), &patch.Options{})
+		},
 			func(m protoreflect.Message) bool {
 				f := find(m, "gender")
 				if !m.Has(f) {
